@@ -152,7 +152,9 @@ func parseNative(txt string, n int) map[int]nativeResult {
 		if cur >= 0 {
 			r := res[cur]
 			if strings.HasPrefix(line, "VERIF-ASSERT-FAIL ") {
-				r.Failures = append(r.Failures, strings.TrimPrefix(line, "VERIF-ASSERT-FAIL "))
+				if l := strings.TrimPrefix(line, "VERIF-ASSERT-FAIL "); !contains(r.Failures, l) {
+					r.Failures = append(r.Failures, l)
+				}
 			} else if strings.HasPrefix(line, "VERIF-OBSERVE ") {
 				r.Observed = append(r.Observed, strings.TrimPrefix(line, "VERIF-OBSERVE "))
 			}
